@@ -304,6 +304,77 @@ pub fn trial(prop: &str, i: u64, rng: &mut Rng, out: &mut Outcome, dir: &std::pa
             out.count("oracle_evaluations");
         }
     }
+    // ---- final attack: a late message of an ex-member whose leaf has been re-used -----------------
+    // The attacker encrypts a rumor that names a not-yet-member ("carol") as author, the wrapper is
+    // held back; the admin removes the attacker and adds carol (who takes the freed leaf); the
+    // receivers apply both commits and only then get the wrapper (decrypted with past-epoch secrets).
+    if rng.chance(40) && a.w.is_active(atk, g) {
+        let carol = a.w.add_client(BackendKind::Memory, mdk_core::MdkConfig::default(), rng);
+        let cpk = a.w.clients[carol].pk();
+        let spoof = rng.chance(70);
+        let label = if spoof { "late-spoof-author=member-that-took-the-freed-leaf" } else { "late-honest-message-of-ex-member" };
+        a.w.t += 1;
+        let rumor: UnsignedEvent = EventBuilder::new(Kind::Custom(9), format!("atk-{i}-late")).custom_created_at(Timestamp::from(a.w.base_ts)).build(if spoof { cpk } else { apk });
+        mdk_core::verif::set_created_at(Some(a.w.t));
+        let held = with_mdk!(a.w.clients[atk].mdk, x => x.create_message(&gid, rumor));
+        if let Ok(ev) = held {
+            wrapper_author.insert(ev.id, atk);
+            let at = a.w.clients[atk].state(g, &gid).unwrap();
+            let late_idx = a.w.log.len();
+            a.w.log.push(Pub { ev, kind: PubKind::App, author: atk, g, at, refs: vec![], what: label.into(), rumor: None, mode: OwnMode::Echo, welcomes: vec![], adversarial: true });
+            a.w.t += 1;
+            let mut ok = false;
+            if let Some(rm) = a.w.act_commit_remove_target(0, g, atk, rng) {
+                for r in receivers {
+                    a.w.deliver(r, rm, OwnMode::Echo);
+                }
+                a.w.t += 1;
+                let kp = a.w.clients[carol].key_package_event();
+                let at0 = a.w.clients[0].state(g, &gid).unwrap();
+                mdk_core::verif::set_created_at(Some(a.w.t));
+                if let Ok(u) = with_mdk!(a.w.clients[0].mdk, x => x.add_members(&gid, &[kp])) {
+                    let add_idx = a.w.log.len();
+                    let welcomes: Vec<(usize, UnsignedEvent)> = u.welcome_rumors.unwrap_or_default().into_iter().map(|wr| (carol, wr)).collect();
+                    a.w.groups[g].invited.insert(carol);
+                    a.w.log.push(Pub { ev: u.evolution_event, kind: PubKind::Commit, author: 0, g, at: at0, refs: vec![], what: format!("add c{carol}"), rumor: None, mode: OwnMode::Immediate, welcomes, adversarial: false });
+                    a.w.clients[0].pending_own.insert(g, add_idx);
+                    a.w.act_merge(0, g);
+                    for r in receivers {
+                        a.w.deliver(r, add_idx, OwnMode::Echo);
+                    }
+                    a.w.join(carol, add_idx);
+                    ok = receivers.iter().all(|r| a.w.members_at(*r, g).contains(&cpk) && !a.w.members_at(*r, g).contains(&apk));
+                }
+            }
+            if ok {
+                for r in receivers {
+                    let d = a.w.deliver(r, late_idx, OwnMode::Echo);
+                    out.note("results", format!("{label} -> {}", d.class));
+                }
+                out.count("adversarial_trials");
+                out.count("late_leaf_reuse_trials");
+                out.note("attack_kinds", label.to_string());
+                labels.push(label.to_string());
+                for (ri, r) in receivers.iter().enumerate() {
+                    let replay = json!({"kind": "c04", "scenario": i, "attack": label, "trace": trace_tail(&a.w, 30)});
+                    if let Some((clause, detail)) = binding_check(&a.w, *r, &wrapper_author) {
+                        out.violation(format!("{prop}|{clause}|unexplained|attack={}", label.split('=').next().unwrap_or("")), format!("after {label}: {detail}"), replay);
+                        a.w.cleanup();
+                        return;
+                    }
+                    let now = shadow_of(&a.w, *r);
+                    for (key, old) in &shadows[ri] {
+                        if now.get(key) != Some(old) {
+                            out.violation(format!("{prop}|stored-message-changed|unexplained|attack=late"), format!("after {label}: message {} of group g{} at c{r} changed or disappeared", &key.1.to_hex()[..8], key.0), replay);
+                            a.w.cleanup();
+                            return;
+                        }
+                    }
+                    out.count("oracle_evaluations");
+                }
+            }
+        }
+    }
     out.distinct.insert(crate::rng::fnv(labels.join("|").as_bytes()));
     if i < 2 {
         out.sample(json!({"scenario": i, "attacks": labels}), 3);
@@ -318,12 +389,13 @@ pub fn run(ctx: &Ctx) -> i32 {
     let _ = std::fs::remove_dir_all(&dir);
     let floors = vec![
         Floor { what: "adversarial trials", have: out.get("adversarial_trials"), need: 2000 },
-        Floor { what: "attack kinds", have: out.sets.get("attack_kinds").map(|s| s.len()).unwrap_or(0) as u64, need: 11 },
+        Floor { what: "attack kinds", have: out.sets.get("attack_kinds").map(|s| s.len()).unwrap_or(0) as u64, need: 13 },
+        Floor { what: "late messages after the sender's leaf was re-used", have: out.get("late_leaf_reuse_trials"), need: 200 },
     ];
     finish(
         ctx,
         "exploration",
-        "a malicious member sends rumors through create_message and through the raw OpenMLS path with arbitrary pubkey, pre-set id (random, of another member's message in this group, of a message in another group of the victim, of its own earlier message), arbitrary kind/tags/created_at; replays captured wrappers verbatim and re-wrapped (outer layer re-encrypted under the right exporter secret, fresh ephemeral key and id); re-tags a wrapper with another group's h. After every attack, at two honest receivers and in every group: each stored message's id must be the NIP-01 hash of its stored fields and of its stored event, its author must be the identity whose ciphertext it was, no earlier stored message may change author/content or disappear, and no body may be stored twice. distinct = distinct attack sequences",
+        "a malicious member sends rumors through create_message and through the raw OpenMLS path with arbitrary pubkey, pre-set id (random, of another member's message in this group, of a message in another group of the victim, of its own earlier message), arbitrary kind/tags/created_at; replays captured wrappers verbatim and re-wrapped (outer layer re-encrypted under the right exporter secret, fresh ephemeral key and id); re-tags a wrapper with another group's h; finally (40 % of the trials) a message naming a not-yet-member as author is held back while the admin removes the attacker and adds that member into the freed leaf, and is delivered afterwards (decrypted with past-epoch secrets). After every attack, at two honest receivers and in every group: each stored message's id must be the NIP-01 hash of its stored fields and of its stored event, its author must be the identity whose ciphertext it was, no earlier stored message may change author/content or disappear, and no body may be stored twice. distinct = distinct attack sequences",
         out,
         floors,
         vec!["the MLS-authenticated sender is known by construction (the harness knows whose stored state produced each ciphertext)".into()],
